@@ -30,14 +30,14 @@ Proof.
   cbn [denote obind option_map bin_val]. decide_reals.
   intros H. injection H as H.
   assert (H1 : 1 / - (1 * 2) = - (1 / 2)) by (field; lra).
-  assert (H2 : 1 / - 1 * 2 = - 2) by (field; lra).
+  assert (H2 : 1 / - (1) * 2 = - (2)) by (field; lra).
   rewrite H1, H2 in H. lra.
 Qed.
 
 (* sin(x)^2 : parsed as sin(x^2); the conventional reading is (sin x)^2.
    At x = sqrt(3 pi / 2):  sin(x^2) = -1 < 0 <= (sin x)^2. *)
 Lemma powerRZ_2 (a : R) : powerRZ a 2 = a * a.
-Proof. cbn. ring. Qed.
+Proof. cbv [powerRZ Pos.to_nat Pos.iter_op Init.Nat.add pow]. ring. Qed.
 
 Lemma pow_val_2 (a : R) : pow_val a 2 = Some (a * a).
 Proof.
@@ -61,4 +61,55 @@ Proof.
   rewrite (sqrt_sqrt _ Hp), sin_3PI2.
   intros H. injection H as H.
   pose proof (Rle_0_sqr (sin (sqrt (3 * (PI / 2))))) as Hs. unfold Rsqr in Hs. lra.
+Qed.
+
+(* ---- Display does not read back ------------------------------------------------------------ *)
+(* (-x)^y is printed as "-x ^ y", which reads back as -(x^y): at x = 1, y = 2 the values are 1 and -1.
+   No number occurs, so this holds for every rendering [fmt] of numbers. *)
+Lemma c19_display_prefix_refuted_lemma : forall fmt : R -> str,
+  exists (ts : list (token R)) (e e' : expr R) (rho : env),
+    parser ts = Ok e /\ reread fmt e = Ok e' /\ denote e' rho <> denote e rho.
+Proof.
+  intros fmt.
+  exists [TLParen; TOp OSub; tx; TRParen; TOp OCaret; ty].
+  exists (EBin OCaret (EPre OSub (EVar [120%N])) (EVar [121%N]) false).
+  exists (EPre OSub (EBin OCaret (EVar [120%N]) (EVar [121%N]) false)).
+  exists (fun v => match v with [121%N] => 2 | _ => 1 end).
+  split; [reflexivity|]. split; [reflexivity|].
+  cbn [denote obind option_map bin_val]. rewrite !pow_val_2. cbn [option_map].
+  intros H. injection H as H. lra.
+Qed.
+
+(* the constant pi is printed as the character U+03C0, which the lexer rejects *)
+Lemma c19_display_constant_refuted_lemma : forall fmt : R -> str,
+  exists (ts : list (token R)) (e : expr R),
+    parser ts = Ok e /\ reread fmt e = Err EUnexpectedChar.
+Proof.
+  intros fmt. exists [TConst KPi], (EConst KPi). split; reflexivity.
+Qed.
+
+(* (0 + x*y)^z : fold returns the operand x*y without the paren flag; the folded tree is printed as
+   "x * y ^ z", which reads back as x*(y^z): at x = 2, y = 1, z = 2 the values are 4 and 2. *)
+Lemma Reqb_refl (a : R) : Reqb a a = true.
+Proof. apply Reqb_true. reflexivity. Qed.
+
+Lemma c19_display_fold_paren_refuted_lemma : forall fmt : R -> str,
+  exists (ts : list (token R)) (e e' : expr R) (rho : env),
+    parser ts = Ok e /\ reread fmt e = Ok e' /\ denote e' rho <> denote e rho.
+Proof.
+  intros fmt.
+  exists [TLParen; TNum 0; TOp OAdd; tx; TOp OMul; ty; TRParen; TOp OCaret; tz].
+  exists (EBin OCaret (EBin OMul (EVar [120%N]) (EVar [121%N]) false) (EVar [122%N]) false).
+  exists (EBin OMul (EVar [120%N]) (EBin OCaret (EVar [121%N]) (EVar [122%N]) false) false).
+  exists (fun v => match v with [121%N] => 1 | _ => 2 end).
+  split; [|split].
+  - unfold parser.
+    change (parse_unfolded [TLParen; TNum 0; TOp OAdd; tx; TOp OMul; ty; TRParen; TOp OCaret; tz])
+      with (Ok (EBin OCaret (EBin OAdd (ENum 0) (EBin OMul (EVar [120%N]) (EVar [121%N]) false) true)
+                     (@EVar R [122%N]) false)).
+    cbn [bind]. rewrite fold_operations_foldS.
+    cbn [foldS is_num neqb n0 n1 RNum]. rewrite Reqb_refl. reflexivity.
+  - reflexivity.
+  - cbn [denote obind option_map bin_val]. rewrite !pow_val_2. cbn [obind bin_val].
+    intros H. injection H as H. lra.
 Qed.
